@@ -1460,3 +1460,10 @@ package zygo
 //@ C04 loop 0 invariant shape: env.datastack == old(env.datastack) && wfs(env.datastack) && env.datastack.tos <= old(env.datastack.tos) && env.datastack.tos >= 0 - 1 && env.pc == old(env.pc) + 1
 //@ C04 loop 0 invariant no-own-mark-above: forall(k, env.datastack.tos < k && k <= old(env.datastack.tos) ==> !ownMark(old(env.datastack.elements[k].(DataStackElem).expr), s.sym))
 //@ C04 loop 0 invariant below-kept: forall(k, 0 <= k && k <= env.datastack.tos ==> env.datastack.elements[k] == old(env.datastack.elements[k]))
+
+// C05: a force that fails leaves the delayed argument as it found it: no field of the argument
+// is written on a path that ends in an error (a later force evaluates the expression afresh).
+//@ func (*SexpLazyArg).Force
+//@ ghost touched := false @entry
+//@ ghost touched := touched || arg0 == lazy @before call store_SexpLazyArg[*]
+//@ C05 ensures failed-force-leaves-the-argument-alone: r1 != nil ==> !touched
